@@ -1,6 +1,6 @@
 (** Properties/C02.v — Every mistake in the input is reported, exactly once, in a single pass.
     Statements only; one level of a derived parser, for every item list (see C01.v). *)
-From DarlingModel Require Import Run.Recv Run.RecvProofs Run.LoopProofs Run.LevelProofs Err.ErrTree.
+From DarlingModel Require Import Run.Recv Run.RecvProofs Run.LoopProofs Run.LevelProofs Err.ErrTree Spec.C01 Run.SpecSound Run.SpecComplete Run.TotalProofs.
 Local Open Scope list_scope.
 
 (** Pushing an error never loses the ones recorded before it. *)
@@ -60,9 +60,29 @@ Theorem C02_level_returns_all_errors :
           /\ (cdef_of tt = Err e \/ exists cd, cdef_of tt = Ok cd /\ init_all interp_fn cd (ps_slots st2) fields = Err e)).
 Proof. exact parse_fields_err. Qed.
 
+(** Parsing fails exactly when the input contains a mistake - where "mistake-free" is the
+    per-field specification giving the input a value (Spec/C01.v), for every receiver type of
+    any depth meeting [wf_spec] and [cwf] and every meta item: no value means no [Ok]; and, for
+    total leaves and callables, an [Err]. *)
+Theorem C02_fails_exactly_on_mistaken_inputs :
+  forall pf reparse reparse_arr reparse_preds sugg sim interp_with interp_fn t,
+    wf_spec t -> cwf t ->
+    forall m, is_meta m = true ->
+      (expected pf reparse reparse_arr reparse_preds interp_with interp_fn t m = None
+       <-> forall v, from_meta (impl_of pf reparse reparse_arr reparse_preds sugg sim interp_with interp_fn t) m <> Ok v).
+Proof.
+  intros pf reparse reparse_arr reparse_preds sugg sim interp_with interp_fn t W C m M.
+  pose proof (parser_is_the_declared_mapping pf reparse reparse_arr reparse_preds sugg sim interp_with interp_fn t W C m) as P.
+  split.
+  - intros N v H. apply (P v M) in H. congruence.
+  - intros H. destruct (expected pf reparse reparse_arr reparse_preds interp_with interp_fn t m) as [v|] eqn:E; [|reflexivity].
+    exfalso. apply (H v). now apply (P v M).
+Qed.
+
 Print Assumptions C02_push_keeps_earlier_errors.
 Print Assumptions C02_level_returns_all_errors.
 Print Assumptions C02_errors_are_per_item_contributions.
 Print Assumptions C02_one_error_per_mistaken_item.
 Print Assumptions C02_errors_in_input_order.
 Print Assumptions C02_loop_never_returns_early.
+Print Assumptions C02_fails_exactly_on_mistaken_inputs.
